@@ -788,6 +788,14 @@ func runTables(r *ev.Run, only, shard, nshards int) {
 			se.s.Run()
 			se.s.Panics = append(se.s.Panics, se.reqFaults...)
 			benign := se.s.Deadlock && se.s.BlockedOnly("accept ", "read ")
+			// what the operator's own last command left behind, before the harness cleans up:
+			// after "socks clear" no proxy may be left in the table or listening
+			var afterClear []string
+			if sc.opCmd[0] != "socks kill" {
+				for _, s := range se.a.SocksSvr {
+					afterClear = append(afterClear, s.Addr)
+				}
+			}
 			if benign || (!se.s.Deadlock && !se.s.HorizonHit && len(se.s.Panics) == 0) {
 				// quiescent: now close whatever is left, sequentially (no scheduler installed)
 				se.socksCmd("socks clear", "")
@@ -819,6 +827,8 @@ func runTables(r *ev.Run, only, shard, nshards int) {
 				r.Violate("tables/lock-held", fmt.Sprint(se.s.Held()), detail)
 			case !mutexesFree(se.a):
 				r.Violate("tables/lock-held", "an agent table mutex is still locked after the run", detail)
+			case len(afterClear) > 0 && (benign || !se.s.Deadlock):
+				r.Violate("tables/proxy-survives-clear", fmt.Sprintf("the operator's socks clear has returned, the proxy table still holds %v", afterClear), detail)
 			case openListeners(se) != "":
 				r.Violate("tables/listener-outlives-proxy", "every proxy was cleared, but the listener on "+openListeners(se)+" is still open (accepting connections for a proxy that is in no table)", detail)
 			case len(se.a.SocksSvr) != 0 || len(se.a.SocksCli) != 0:
